@@ -273,6 +273,9 @@ def run_check(prop, tier, seed, runs=None, workers=None, wall_cap=None, write_ev
     workers = int(workers or os.environ.get('VERIF_WORKERS') or min(16, os.cpu_count() or 1))
     wall_cap = float(wall_cap or os.environ.get('VERIF_WALL_CAP') or cfg.get('wall_cap', 600))
     chunk = int(cfg.get('chunk', 25))
+    # VERIF_FIRST=1: stop handing out further chunks once a run has violated (used by the seeded-change regression, never by
+    # the registered commands; known findings count as violations here, so it is of no use for C10 and is ignored there)
+    stop_at_first = os.environ.get('VERIF_FIRST') == '1' and not any(e.get('property') == prop and e.get('status') == 'known' for e in load_known())
     t0 = time.monotonic()
     print(f'# check {prop} tier={tier} VERIF_SEED={seed} runs={runs} workers={workers}', flush=True)
 
@@ -303,6 +306,7 @@ def run_check(prop, tier, seed, runs=None, workers=None, wall_cap=None, write_ev
                         harness_errors.append('chunk timed out (hang?)')
                         for p in ex._processes.values(): p.kill()
                         break
+                    if stop_at_first and any(x.get('violations') for x in summaries): wall_cap = 0.0      # (VERIF_FIRST=1, regression runs only)
                     if time.monotonic() - t0 <= wall_cap:
                         nxt = next(it, None)
                         if nxt is not None: pending.append(ex.submit(_chunk, nxt))
